@@ -483,7 +483,7 @@ class Interp:
                         raise self.exc("ImportError", f"cannot import name {name} from {mod}")
             else:
                 full = f"{mod}.{name}"
-                env.vars[target] = ExtRef(CANON.get(full, full))
+                env.vars[target] = self.models.ext_entity(self, CANON.get(full, full))
 
     # ------------------------------------------------------------------ assignment
 
